@@ -1,7 +1,10 @@
 import MicroHttp.Props.C13
+import MicroHttp.Props.C01
 #print axioms MicroHttp.C13.cont_iff
 #print axioms MicroHttp.C13.cont_only_at_end_of_headers
 #print axioms MicroHttp.C13.body_byte_no_cont
 #print axioms MicroHttp.C13.cont_before_body
 #print axioms MicroHttp.C13.cont_response
 #print axioms MicroHttp.C13.server_switches_to_out
+#print axioms MicroHttp.C01.tryRead_refines
+#print axioms MicroHttp.C01.sched_refines
